@@ -1,4 +1,7 @@
 import WpModel.Drive.Loop
 import WpModel.Drive.Resources
+import WpModel.Drive.ResourcesBg
+import WpModel.Drive.ResourcesSvg
 
-def main : IO Unit := Wp.Drive.runDriver [Wp.Drive.Resources.handle]
+def main : IO Unit :=
+  Wp.Drive.runDriver [Wp.Drive.Resources.handle, Wp.Drive.ResourcesBg.handle, Wp.Drive.ResourcesSvg.handle]
